@@ -44,7 +44,7 @@ static char dir1[256], dir2[256], scratch[200];
 static long allocs0;
 
 /* raw records of the read being dispatched */
-struct rec { int inst; int wd; uint32_t mask; uint32_t cookie; char name[64]; };
+struct rec { int inst; int wd; uint32_t mask; uint32_t cookie; char name[260]; };
 static struct rec recs[256];
 static int nrecs, rec_next;
 static int in_main, cb_depth;
@@ -252,6 +252,8 @@ static void watch_cb(void *_ck, struct inotify_event *ev)
 }
 
 /* keep a copy of what the kernel returned */
+static int overflow_left;
+
 static int rd_override(int fd, void *buf, size_t n, ssize_t *ret)
 {
 	int i, inst = -1;
@@ -281,6 +283,23 @@ static int rd_override(int fd, void *buf, size_t n, ssize_t *ret)
 		nrecs++;
 		p += sizeof(*e) + e->len;
 	}
+	if (overflow_left > 0 && (size_t)r + sizeof(struct inotify_event) <= n && nrecs < 256 &&
+	    mc_choose(2, MC_FAULT, "queue-overflow-marker")) {
+		/* the kernel's event queue overflowed behind these records: its marker belongs to no watch */
+		struct inotify_event *e = (struct inotify_event *)((char *)buf + r);
+		overflow_left--;
+		memset(e, 0, sizeof(*e));
+		e->wd = -1;
+		e->mask = IN_Q_OVERFLOW;
+		recs[nrecs].inst = inst;
+		recs[nrecs].wd = -1;
+		recs[nrecs].mask = IN_Q_OVERFLOW;
+		recs[nrecs].cookie = 0;
+		recs[nrecs].name[0] = 0;
+		nrecs++;
+		*ret = r + sizeof(*e);
+		mc_obs("overflow-marker");
+	}
 	mc_obs("read:%d-records", nrecs);
 	return 1;
 }
@@ -304,7 +323,7 @@ static void object_gone(const char *path)
 
 static void fsop(int op)
 {
-	char a[400], b[400];
+	char a[700], b[700];
 	switch (op) {
 	case 0: break;
 	case 1: snprintf(a, sizeof(a), "%s/new", dir1); touch(a); break;                    /* create + modify + close */
@@ -313,6 +332,15 @@ static void fsop(int op)
 	case 4: snprintf(a, sizeof(a), "%s/f1", dir1); snprintf(b, sizeof(b), "%s/f1", dir2); rename(a, b); break;
 	case 5: snprintf(a, sizeof(a), "%s/f1", dir1); if (unlink(a) == 0) object_gone(a); break;
 	case 6: if (rmdir(dir2) == 0) object_gone(dir2); break;
+	case 7: {
+		/* the longest file name there is: the record's name field is 256 bytes */
+		char nm[256];
+		memset(nm, 'L', 255);
+		nm[255] = 0;
+		snprintf(a, sizeof(a), "%s/%s", dir1, nm);
+		touch(a);
+		break;
+	}
 	}
 	mc_obs("fs%d", op);
 }
@@ -410,8 +438,9 @@ static void exec_one(void)
 		}
 		preset = np ? pl[mc_choose(np, MC_CONFIG, "preset")] : mc_choose(5, MC_CONFIG, "preset");
 	}
-	op1 = mc_choose(7, MC_CONFIG, "op1");
-	op2 = mc_choose(7, MC_CONFIG, "op2");
+	op1 = mc_choose(8, MC_CONFIG, "op1");
+	op2 = mc_choose(8, MC_CONFIG, "op2");
+	overflow_left = mc_arg_int("overflow", 1);
 	burst2 = mc_choose(3, MC_CONFIG, "round2") ? (op1 == 2 ? 1 : 2) : 0;
 	allocs0 = env_lib_allocs_live;
 	iv_init();
